@@ -2,6 +2,7 @@ import Driver.Util
 import BtcModel.Model.Fees
 import BtcModel.Spec.Ledger
 import BtcModel.Gen.Constants
+import BtcModel.Model.Merkle
 
 /-
   Line protocol for the canister model: parsing of blocks / requests and canonical printing of
@@ -50,9 +51,14 @@ def parseTx (s : String) : Tx :=
 
 def parseBlock (s : String) : Block :=
   match splitOnChar s ',' with
-  | [hash, prev, diff, time, bits, hdr, mok, txs] =>
+  | [hash, prev, diff, time, bits, hdr, _mok, txs] =>
+    let txl := (parseList txs ';').map parseTx
+    -- the merkle root committed in the header: bytes 36..68 of the 80-byte header
+    let root := hexToNat ((hdr.drop 72).take 64).toString
+    -- `check_merkle_root` decided by the model's own SHA-256d (not by the harness' flag)
     { hash := hexToNat hash, prev := hexToNat prev, diff := diff.toNat!, time := time.toNat!,
-      bits := bits.toNat!, header := hdr, txs := (parseList txs ';').map parseTx, merkleOk := mok == "1" }
+      bits := bits.toNat!, header := hdr, txs := txl,
+      merkleOk := Btc.Merkle.checkMerkleRoot Btc.Merkle.hashPair root txl }
   | _ => { hash := 0, prev := 0, diff := 0, time := 0, bits := 0, header := "", txs := [] }
 
 def hash64 (n : Nat) : String := natToHex n 64
